@@ -139,10 +139,10 @@ CLAIMED = {
         note=TRUST + LOOP + "; getnameinfo evaluated on four concrete local endpoints",
     ),
     "C17": dict(
-        category="other",
-        text="_notify_single is proved to send one datagram to the subscriber's address that is byte-for-byte the concatenation of the spec-layout notifications (service id, 0x8000|event id, major version as interface version, NOTIFICATION, current value) with per-destination session ids continuing 1..0xFFFF; subscribe sends exactly the initial notifications to the new endpoint, explicit and cyclic rounds reach each current subscriber exactly once and nobody else, the has-clients flag is set exactly while somebody is subscribed, and subscriptions naming other than one endpoint or an unknown eventgroup are refused. Two events / two endpoints (bounded shape), hence level other.",
+        category="proof",
+        text="_notify_single is proved to send one datagram to the subscriber's address that is byte-for-byte the concatenation of the spec-layout notifications (service id, 0x8000|event id, major version as interface version, NOTIFICATION, current value) with per-destination session ids continuing 1..0xFFFF; subscribe sends exactly the initial notifications to the new endpoint, explicit and cyclic rounds reach each current subscriber exactly once and nobody else, the has-clients flag is set exactly while somebody is subscribed, and subscriptions naming other than one endpoint or an unknown eventgroup are refused. The eventgroup has arbitrarily many events and subscribed endpoints (lazily materialised dict / set; notification loop, fan-out comprehension and cyclic loop by loop / comprehension contracts).",
         design_ref="DESIGN.md 4/C17",
-        technique="coroutines as sequential procedures + loop contract, byte-level postconditions by symbolic execution of the real AST + SMT",
+        technique="coroutines as sequential procedures + loop / comprehension contracts over unbounded state, byte-level postconditions by symbolic execution of the real AST + SMT",
         note=TRUST + LOOP + "; getaddrinfo for numeric hosts modelled in contracts/looplib.py",
     ),
 }
